@@ -24,7 +24,8 @@ CONSTANTS MaxWire,      \* frames in flight
 G(n, g, r, nm) == [node |-> n, gid |-> g, rep |-> r, name |-> nm]
 Pairs == << <<G(1, 7, 1, "ns-0"), G(2, 7, 2, "ns-0")>>,    \* partition 0
             <<G(1, 8, 1, "ns-1"), G(2, 8, 2, "ns-1")>>,    \* partition 1: same replica ids, other group
-            <<G(1, 7, 1, "ns-0"), G(2, 7, 5, "ns-0")>> >>  \* partition 0 after node 2's replica was re-added
+            <<G(1, 7, 1, "ns-0"), G(2, 7, 5, "ns-0")>>,    \* partition 0 after node 2's replica was re-added
+            <<G(1, 7, 9, "ns-0"), G(2, 7, 2, "ns-0")>> >>  \* partition 0 after node 1's replica was re-added
 
 K == [compact |-> TRUE, local |-> 2, remote |-> 1]
 
@@ -48,6 +49,9 @@ EncodeFull(g, t, lt, i, n, sz, c) ==
 
 EncodeHB == Room /\ Send(HBMsg)
 
+DoTruncate(k) == Damage /\ Truncate(k)
+DoCorrupt(k)  == Damage /\ Corrupt(k)
+
 Init == CInit(K)
 
 Next == \/ \E g \in 1..Len(Pairs), t \in Terms, lt \in Terms, i \in Indexes,
@@ -55,8 +59,8 @@ Next == \/ \E g \in 1..Len(Pairs), t \in Terms, lt \in Terms, i \in Indexes,
               Encode(g, t, lt, i, n, sz, c) \/ EncodeFull(g, t, lt, i, n, sz, c)
         \/ EncodeHB
         \/ Decode
-        \/ (Damage /\ \E k \in 0..MaxWire : Truncate(k))
-        \/ (Damage /\ \E k \in 1..MaxWire : Corrupt(k))
+        \/ \E k \in 0..MaxWire : DoTruncate(k)
+        \/ \E k \in 1..MaxWire : DoCorrupt(k)
 
 Spec == Init /\ [][Next]_cvars
 
